@@ -167,11 +167,21 @@ def gen_roots(rng, deg, domain, allow_complex=True):
     roots = []
     left = deg
     while left > 0:
-        kind = rng.choice(['real', 'real', 'zero', 'pair', 'repeat', 'gauss'])
+        kind = rng.choice(['real', 'real', 'zero', 'pair', 'repeat', 'gauss', 'pairrepeat'])
         if kind == 'zero':
             r, n = (Fraction(0), Fraction(0)), 1
         elif kind == 'repeat' and left >= 2:
             r, n = (rand_rat(rng), Fraction(0)), rng.randint(2, min(3, left))
+        elif kind == 'pairrepeat' and left >= 3 and allow_complex:
+            # a conjugate pair with a repeated member: multiplicities (2, 2) or (2, 1)
+            a, b = rand_rat(rng, -2, 2), rand_rat(rng, 1, 2, (1,))
+            n2 = 2 if left >= 4 and rng.random() < 0.6 else 1
+            for rr_, nn in (((a, b), 2), ((a, -b), n2)):
+                if domain in ('jw', 'jf'):
+                    rr_ = cmul(rr_, (Fraction(0), Fraction(-1)))
+                roots.append((rr_, nn))
+            left -= 2 + n2
+            continue
         elif kind == 'pair' and left >= 2 and allow_complex:
             a, b = rand_rat(rng, -3, 3), rand_rat(rng, 1, 3, (1, 2))
             for rr in ((a, b), (a, -b)):
@@ -347,7 +357,7 @@ def formats(H, v):
         ('timeconst_terms', lambda: H.timeconst_terms(), None),
         ('expandcanonical', lambda: H.expandcanonical(), 'expandcanonical'),
         ('as_continued_fraction', lambda: H.as_continued_fraction(), 'cf'),
-        ('as_continued_fraction_inverse', lambda: H.as_continued_fraction_inverse(), None),
+        ('as_continued_fraction_inverse', lambda: H.as_continued_fraction_inverse(), 'cfi'),
         ('simplify', lambda: H.simplify(), None),
         ('simplify_terms', lambda: H.simplify_terms(), None),
         ('simplify_factors', lambda: H.simplify_factors(), None),
@@ -591,6 +601,7 @@ class Runner:
                 chk.count('degenerate', 'ZPK-through-model:%s' % type(e_).__name__)
         # continued-fraction coefficients: structural correspondence
         if not hasdelay and case['nu'] == 0:
+            self.cfi_check(case, H)
             cf, err = L_.timed(lambda: H.continued_fraction_coeffs(), self.tlimit)
             if err:
                 chk.count('lcapy-error', 'continued_fraction_coeffs:%s' % err)
@@ -624,6 +635,46 @@ class Runner:
                     chk.count('degenerate', 'unevaluable:continued_fraction_coeffs (negative power / non-monomial)')
                 except Exception as e_:   # noqa
                     chk.count('degenerate', 'continued_fraction_coeffs:%s' % type(e_).__name__)
+
+    def cfi_check(self, case, H):
+        """inverse continued-fraction coefficients: structural correspondence with the model"""
+        chk, L_ = self.chk, self.L
+        S = L_.sym
+        v = L_.VAR[case['domain']]
+        cf, err = L_.timed(lambda: H.continued_fraction_inverse_coeffs(), self.tlimit)
+        if err:
+            chk.count('lcapy-error', 'continued_fraction_inverse_coeffs:%s' % err)
+            return
+        try:
+            N, D = H.sympy.as_numer_denom()
+            Nt, Dt = poly_coeffs(L_, N, case), poly_coeffs(L_, D, case)
+            mc = self.ask('rf.cficoeffs | %s | %s' % (' '.join(Nt), ' '.join(Dt)))
+            toks = []
+            for c in cf:
+                c = S.sympify(c.sympy if hasattr(c, 'sympy') else c)
+                if case.get('symvals'):
+                    c = c.subs({S.Symbol(n, positive=True): L_.srat(Fraction(val)) for n, val in case['symvals'].items()})
+                if c == 0:
+                    toks += ['0', '0']
+                    continue
+                for k in range(0, 12):
+                    q = S.cancel(c * v ** k)
+                    if not q.has(v):
+                        break
+                else:
+                    raise Unevaluable('coefficient is not q*var^-k: %s' % c)
+                toks += [L_.to_cq(q), str(k)]
+            chk.count('data', 'continued_fraction_inverse_coeffs')
+            if mc.startswith('ok'):
+                chk.coverage['correspondence']['compared'] += 1
+                if mc != 'ok ' + ' '.join(toks):
+                    self.disagree('cficoeffs', case, {'lcapy': ' '.join(toks), 'model': mc})
+            else:
+                chk.count('model', 'cficoeffs:' + mc)
+        except Unevaluable:
+            chk.count('degenerate', 'unevaluable:continued_fraction_inverse_coeffs')
+        except Exception as e_:   # noqa
+            chk.count('degenerate', 'continued_fraction_inverse_coeffs:%s' % type(e_).__name__)
 
     def pf_checks(self, case, H, pts, Bt, At, poles_tt, hl):
         """residues of as_QRPO judged by pfCheck, partfrac through the model with them"""
